@@ -27,7 +27,8 @@ SortedSeq(S) == IF S = {} THEN <<>>
 \*   k    : "feature" | "rule" | "scenario" | "outline" | "row"
 \*   pre  : filler lines in front of the entity (comments, blank lines, extra tag lines)
 \*   body : lines that follow the entity's first line and belong to it (description, background, steps)
-\*   tag  : "none" | "setup" | "teardown"  (one more line in front: the tag line)
+\*   tag  : "none" | "setup" | "teardown" | "near" (a near miss such as @set, @up, @setups; not exempting)
+\*          (one more line in front: the tag line)
 \*   nt   : a row that opens a new Examples table (two more lines in front: "Examples:" and the heading row)
 \*   et   : heading-only Examples table (an "Examples:" line and a heading row, NO data rows; it contributes no
 \*          entity but exists in the file): 0 none, 1 in front of the table this row opens (nt rows only: two
@@ -74,7 +75,9 @@ SelDef(E, line) == IF line = 0 \/ Nearest(E, line) = 0 THEN Scens(E) ELSE Expand
 \* the statement is silent about lines 1 .. (first line of the feature - 1); the code selects all there
 Stated(E, line) == line = 0 \/ line >= E[1].line
 \* @setup / @teardown scenarios (rows inherit the tags of their outline)
-Exempt(E) == {j \in Scens(E) : E[j].tag # "none" \/ (E[j].k = "row" /\ E[E[j].par].tag # "none")}
+\* only the exact tags exempt; any other tag ("near": up, set, s, tear, down, setups, setupteardown ...) does not
+ExemptTag(t) == t \in {"setup", "teardown"}
+Exempt(E) == {j \in Scens(E) : ExemptTag(E[j].tag) \/ (E[j].k = "row" /\ ExemptTag(E[E[j].par].tag))}
 \* several locations of one file: union; L = set of lines (0 = bare)
 ReqSelWith(E, L, Sel(_)) == IF L = {} THEN {} ELSE IF 0 \in L THEN Scens(E) ELSE UNION {Sel(l) : l \in L}
 ReqSel(E, L) == ReqSelWith(E, L, LAMBDA l : SelDef(E, l))
